@@ -1,6 +1,7 @@
 package vc
 
 import (
+	"os"
 	"fmt"
 	"go/types"
 	"sort"
@@ -31,6 +32,8 @@ type Gen struct {
 	pureDone map[string]bool
 	axioms   []string
 	Verbose  bool
+	epochs   map[int]bool
+	WFAxioms bool // emit global heap well-formedness axioms
 	heapRefs map[string]bool // name@epoch consts referenced
 	heapRefOrder []string
 }
@@ -58,6 +61,7 @@ func Load(repo string) (*Gen, error) {
 			g.SSAPkgs[sp.Pkg.Name()] = sp
 		}
 	}
+	g.WFAxioms = os.Getenv("GOVC_WF") == "1"
 	cs, err := LoadContracts(repo)
 	if err != nil {
 		return nil, err
@@ -153,6 +157,13 @@ func (g *Gen) UF(name string, argSorts []string, res string) string {
 		g.ufOrder = append(g.ufOrder, name)
 	}
 	return name
+}
+
+func (g *Gen) noteEpoch(e int) {
+	if g.epochs == nil {
+		g.epochs = map[int]bool{}
+	}
+	g.epochs[e] = true
 }
 
 func (g *Gen) noteHeapRef(sym, heap string) {
